@@ -48,6 +48,7 @@ func metaStrings(c *Ctx, nRandom int) []cls {
 		{"lsep", "a b c"}, {"backslash", `a\b\\c`}, {"braces", "{{.X}}${y}"},
 		{"len79", repeatTo("0123456789", 79)}, {"len80", repeatTo("0123456789", 80)}, {"len81", repeatTo("0123456789", 81)},
 		{"len80meta", repeatTo("a&b=c+d e%", 80)}, {"len81meta", repeatTo("a&b=c+d e%", 81)},
+		{"len255", repeatTo("relay-0123456789_", 255)}, {"rune_straddles_80", repeatTo("0123456789", 79) + "é世"},
 		{"len200", repeatTo("x&y=z#+% é", 200)}, {"len4000", repeatTo("relay-state_0123456789&=#+%; ", 4000)},
 	}
 	alphabet := []string{"&", "=", "#", "+", "%", "%41", "%2", ";", " ", "\"", "'", "<", ">", "?", "/", ":", "@", "a", "Z", "0", "-", "_", ".", "~", "é", "世", "!", "*", "(", ")", ",", "$", "[", "]", "|", "^", "{", "}", "\\", "`"}
